@@ -46,14 +46,16 @@ def plan(tier, seed):
 
 def lcd_set(isa, path, ipath, arch, lines, rot, flags):
     n = len(lines)
-    text = "\n".join(lines[rot:] + lines[:rot]) + "\n"
+    # every other rotation is written without a final newline (text assembled with "\n".join): the same instruction stream
+    text = "\n".join(lines[rot:] + lines[:rot]) + ("\n" if rot % 2 == 0 else "")
     forms, dg, mm, sem, parser = c05.analyse_case(isa, path, ipath, arch, text, flags, 0)
     if len(forms) != n:
         return None
     idx = {f.line_number: (i + rot) % n for i, f in enumerate(forms)}
     out = set()
     for key, v in dg.get_loopcarried_dependencies().items():
-        members = tuple(sorted(idx[d[0].line_number] for d in v["dependencies"]))
+        # members with the latency each of them passes on (which member carries which latency must not depend on the rotation)
+        members = tuple(sorted((idx[d[0].line_number], round(float(d[1]), 6)) for d in v["dependencies"]))
         out.add((members, round(float(v["latency"]), 6)))
     return out
 
@@ -70,10 +72,13 @@ def check_rotations(kind, isa, path, ipath, arch, lines, flags, R, case, offsets
             for r in (range(1, n) if offsets is None else offsets):
                 got = lcd_set(isa, path, ipath, arch, lines, r, flags)
                 R.count("rotations")
+                if got is None:
+                    R.violation("rotation/%s/lines-lost" % isa, "rotating by %d lines: the analysed kernel has not %d lines any more" % (r, n), dict(case, rotation=r))
+                    break
                 if got != base:
                     lost, new = sorted(base - got), sorted(got - base)
                     tag = "lost" if lost and not new else "new" if new and not lost else "changed"
-                    bm, gm = set(m for m, l in base), set(m for m, l in got)
+                    bm, gm = set(tuple(i for i, w in m) for m, l in base), set(tuple(i for i, w in m) for m, l in got)
                     sub = "latency-only" if bm == gm else "members"
                     R.violation("rotation/%s/%s/%s" % (isa, tag, sub), "rotating by %d lines: cycles lost %s, new %s (maximum %s -> %s)"
                                 % (r, lost[:3], new[:3], max([l for m, l in base] or [0]), max([l for m, l in got] or [0])), dict(case, rotation=r))
@@ -90,7 +95,7 @@ def check_rotations(kind, isa, path, ipath, arch, lines, flags, R, case, offsets
         R.count("kernels_with_cycles")
     R.case(digest((arch or case.get("model_seed", "")) and str(arch or case.get("model_seed")) + "\n".join(lines)), nontrivial=any(len(m) >= 2 for m, l in base))
     R.count("kind:" + kind)
-    R.sample({"kind": kind, "arch": arch, "lines": n, "cycles": sorted([list(m), l] for m, l in base)[:4], "kernel_head": lines[:4]}, limit=3)
+    R.sample({"kind": kind, "arch": arch, "lines": n, "cycles": sorted([[list(x) for x in m], l] for m, l in base)[:4], "kernel_head": lines[:4]}, limit=3)
 
 
 def run_corpus(spec, R):
